@@ -27,6 +27,8 @@ ProfileCfg profile_by_name(const std::string &name, const std::string &prop, int
 Plan gen_plan(const ProfileCfg &pc, uint64_t run_seed);
 Plan gen_plan_entry(const ProfileCfg &pc, uint64_t run_seed);
 Plan gen_plan_sgl(const ProfileCfg &pc, uint64_t run_seed);
+Plan gen_plan_sgl_enum(const ProfileCfg &pc, uint64_t run_seed, uint64_t idx); // systematic 2-cut partitions
+uint64_t sgl_enum_cells();
 Plan gen_plan_keyprep(const ProfileCfg &pc, uint64_t run_seed);
 // a random applicable violation id for spec (0 if none)
 int pick_violation(Rng &r, const JobSpec &s);
